@@ -105,6 +105,56 @@ func vNewMsg(method stun.Method, class stun.MessageClass, setters ...stun.Setter
 	return m
 }
 
+// vNewMsgTID is vNewMsg with a transaction id chosen by the caller (needed to XOR addresses by hand).
+func vNewMsgTID(tid []byte, method stun.Method, class stun.MessageClass, setters ...stun.Setter) *stun.Message {
+	m := &stun.Message{}
+	copy(m.TransactionID[:], tid)
+	all := append([]stun.Setter{stun.NewType(method, class)}, setters...)
+	err := m.Build(all...)
+	vAssume(err == nil)
+	m.WriteTransactionID()
+	return m
+}
+
+// vXORPeerRaw encodes XOR-PEER-ADDRESS by hand: the family byte and the address length are the
+// caller's choice (fam 1 with 4 bytes, fam 2 with 16 bytes, also an IPv4-mapped address sent as IPv6),
+// which the library's own encoder would normalise away.
+func vXORPeerRaw(tid []byte, fam byte, ip []byte, port int) vRawAttr {
+	v := make([]byte, 4+len(ip))
+	v[1] = fam
+	v[2] = byte(port>>8) ^ 0x21
+	v[3] = byte(port) ^ 0x12
+	mask := append([]byte{0x21, 0x12, 0xA4, 0x42}, tid...)
+	for i := range ip {
+		v[4+i] = ip[i] ^ mask[i]
+	}
+	return vRawAttr{stun.AttrXORPeerAddress, v}
+}
+
+// vWirePeer is an arbitrary peer address as it can appear on the wire.
+type vWirePeer struct {
+	fam  byte
+	ip   []byte
+	port int
+}
+
+func vAnyWirePeer() vWirePeer {
+	if vBool() {
+		return vWirePeer{1, vBytesN(4), int(vU16())}
+	}
+	return vWirePeer{2, vBytesN(16), int(vU16())}
+}
+
+// isV4: what the server must treat as an IPv4 peer (4 bytes, or an IPv4-mapped IPv6 address).
+func (p vWirePeer) isV4() bool { return vOr(len(p.ip) == 4, vIsV4Mapped(p.ip)) }
+
+func (s *vSrv) allocFam(src net.Addr, user string, fam proto.RequestedAddressFamily) *allocation.Allocation {
+	ft := &allocation.FiveTuple{SrcAddr: src, DstAddr: s.conn.LocalAddr(), Protocol: allocation.UDP}
+	a, err := s.env.M.CreateAllocation(ft, s.conn, proto.ProtoUDP, 0, s.lt, user, "realm", fam)
+	vAssume(err == nil)
+	return a
+}
+
 // vCreds are the credential attributes of an authenticated request (contents arbitrary).
 type vRawAttr struct {
 	t stun.AttrType
